@@ -56,8 +56,10 @@ Fixpoint all_some {A} (l : list (option A)) : option (list A) :=
   | Some a :: t => match all_some t with None => None | Some r => Some (a :: r) end
   end.
 
-(* -------------------------------------------------- proposed repairs as flags *)
-(* false = the pinned behaviour, true = the behaviour after proposed_fixes/C14_Fk.diff:
+(* -------------------------------------------------- repairs as flags *)
+(* false = the pinned behaviour, true = the repaired behaviour.  In /repo HEAD (current tree):
+   fx17 (commit 5fcfc16), fx18 (9a2daa4), fx41 (f15d414) are ON; fx42 is only proposed
+   (proposed_fixes/C14_F42.diff) and OFF.  The harness detects the flags on every run.
    fx17  UNet.__init__ sizes the decoder input for the encoder's real output when
          middle_block=False (int(filters*rate^(levels-1)));
    fx18  Encoder: down blocks get max(convs_per_block-1, 1) convolutions and, for
@@ -601,7 +603,7 @@ Definition get_head (mt : model_type) (parts edges os_confmaps os_pafs : Z) : li
 
 (* -------------------------------------------------------------- model.py *)
 Record model := { m_backbone : backbone; m_heads : list head; m_head_layers : list (list layer);
-                  m_f41 : bool }.     (* the code has the fx41 repair *)
+                  m_f41 : bool }.     (* the code has the fx41 repair (f15d414: current tree) *)
 
 (* Model.encoder_stride (fx41) *)
 Definition encoder_stride (b : backbone) : Z := 2 * d_cs0 (bb_dec b).
@@ -611,9 +613,9 @@ Definition at_top (f41 : bool) (b : backbone) (h : head) : bool := f41 && (h_os 
 Definition max_channels (b : backbone) : Z := d_x_in (bb_dec b).
 
 (* Model.__init__: in_channels of one head layer.
-   fixed = false: the arithmetic of the pinned tree;
-   fixed = true : the proposed repair (proposed_fixes/C14_F20_F43.diff): take the
-                  channel count of the decoder block that serves the head. *)
+   fixed = false: the arithmetic of the pinned tree (before fix 14997bd);
+   fixed = true : the current tree (14997bd): take the channel count of the decoder
+                  block that serves the head. *)
 Definition head_in_channels (fixed : bool) (b : backbone) (min_os : Z) (h : head) : option Z :=
   let strides := d_strides (bb_dec b) in
   if fixed then
@@ -692,7 +694,9 @@ Definition model_convs (m : model) : list (Z * Z * (Z * Z)) :=
 Definition target_shape (h : head) (H W : Z) : shape :=
   (head_channels h, ceil_div H (h_os h), ceil_div W (h_os h)).
 
-(* ----------------------------------------------- known-finding selectors *)
+(* ----------------------------------------------- finding selectors
+   F17, F18, F20, F41 (UNet; top head of ConvNeXt / Swin-T), F43: FIXED in /repo (historic
+   selectors, kept so that a regression is attributed); F42, F44: open (known). *)
 Inductive config :=
 | CfgUNet (c : unet_cfg)
 | CfgConvNext (c : convnext_cfg)
@@ -775,6 +779,17 @@ Definition selector_F43 (c : config) (heads : list head) : bool :=
   | _, _ => false
   end.
 
+(* F44 (ConvNeXt / Swin-T only; open in the current tree): a head whose stride is coarser
+   than the stride the encoder reaches (stem_patch_stride * 8).  Valid, because the configured
+   max_stride admits it (config.check_output_strides even raises max_stride to the coarsest
+   head stride), but no feature map of that stride exists: `strides.index` raises ValueError
+   at construction, with or without the fx41 repair.  F44 implies F41 (historic selector). *)
+Definition selector_F44 (c : config) (heads : list head) : bool :=
+  match cfg_patch_stride c with
+  | None => false
+  | Some _ => existsb (fun h => effective_max_stride c <? h_os h) heads
+  end.
+
 Definition any_selector (c : config) (heads : list head) (H W : Z) : bool :=
   selector_F17 c || selector_F18 c || selector_F20 c heads || selector_F41 c heads ||
   selector_F42 c H W || selector_F43 c heads.
@@ -851,7 +866,21 @@ Definition swint_arch_ok (u : swint_cfg) : bool :=
   | _ => false
   end.
 
-Definition valid_config (c : config) (heads : list head) : bool :=
+Definition cfg_kernel (c : config) : Z :=
+  match c with
+  | CfgUNet u => u_kernel u
+  | CfgConvNext u => c_kernel u
+  | CfgSwinT u => s_kernel u
+  end.
+
+(* sizes the constructors need positive (round-4 review, finding 1): kernel_size = 0,
+   in_channels <= 0 or a head without channels make torch raise (on the CPU; the meta device
+   does not notice kernel 0 / 0 output channels), while the shape calculus, which ignores the
+   kernel of a "same" convolution, would go through.  Such configurations are not valid. *)
+Definition positive_sizes (c : config) (heads : list head) : bool :=
+  (0 <? cfg_kernel c) && (0 <? cfg_in_channels c) && forallb (fun h => 0 <? h_n h) heads.
+
+Definition valid_config_core (c : config) (heads : list head) : bool :=
   is_pow2 (cfg_output_stride c) && is_pow2 (cfg_max_stride c) && valid_heads c heads &&
   match c with
   | CfgUNet u =>
@@ -866,6 +895,9 @@ Definition valid_config (c : config) (heads : list head) : bool :=
       (s_patch u =? 4) && swint_arch_ok u
   end.
 
+Definition valid_config (c : config) (heads : list head) : bool :=
+  valid_config_core c heads && positive_sizes c heads.
+
 (* the property's inputs: sides are positive multiples of the configured max_stride *)
 Definition in_domain (c : config) (H W : Z) : bool :=
   (0 <? H) && (0 <? W) && (H mod cfg_max_stride c =? 0) && (W mod cfg_max_stride c =? 0).
@@ -879,7 +911,7 @@ Definition in_domain_fx (f42 : bool) (c : config) (H W : Z) : bool :=
 
 Definition sel_vector (c : config) (heads : list head) (H W : Z) : list bool :=
   [selector_F17 c; selector_F18 c; selector_F20 c heads; selector_F41 c heads; selector_F42 c H W;
-   selector_F43 c heads].
+   selector_F43 c heads; selector_F44 c heads].
 
 (* ------------------------------------------------ harness entry point *)
 Inductive case :=
@@ -944,9 +976,24 @@ Definition classify (c : case) : list (bool * (bool * list bool)) :=
   | _ => []
   end.
 
+(* the same plus the data pipeline's target shapes (target_shape) for every head, per call:
+   compared with the shapes of generate_confmaps / generate_multiconfmaps / generate_pafs on
+   every generated size, multiples of the stride or not (ceil, not floor) *)
+Definition classify_targets (c : case) : list ((bool * (bool * list bool)) * list shape) :=
+  match c with
+  | CModel _ fx cfg mt parts edges os_c os_p inputs =>
+      let heads := get_head mt parts edges os_c os_p in
+      map (fun hw => ((valid_config cfg heads, (in_domain_fx (fx42 fx) cfg (fst hw) (snd hw),
+                                                sel_vector cfg heads (fst hw) (snd hw))),
+                      map (fun hd => target_shape hd (fst hw) (snd hw)) heads)) inputs
+  | _ => []
+  end.
+
 From SV Require Import Base.Render.
 Definition rshape : shape -> rdr := rtriple rZ rZ rZ.
 Definition rresult (r : result) : rdr :=
   rpair rbool (rtriple (rlist (rpair (rpair rZ rZ) (rpair rZ rZ))) (rlist rZ) (rlist (ropt (rlist rshape))))
         (r_built r, (r_convs r, r_strides r, r_calls r)).
 Definition rclassify : list (bool * (bool * list bool)) -> rdr := rlist (rpair rbool (rpair rbool (rlist rbool))).
+Definition rclassify_targets : list ((bool * (bool * list bool)) * list shape) -> rdr :=
+  rlist (rpair (rpair rbool (rpair rbool (rlist rbool))) (rlist rshape)).
